@@ -451,6 +451,46 @@ func M4_incremental_order() {
 	vnd.Reach("executed")
 }
 `)
+	b.WriteString(`
+// an accepted incremental text after a removal: the re-defined rule replaces itself, nothing else moves or vanishes
+func M5_incremental_after_removal() {
+	for _, gone := range []string{"a", "b", "c"} {
+		for _, redef := range []string{"b", "d", "e"} {
+			if gone == redef {
+				continue
+			}
+			sals := map[string]int64{"a": 50, "b": 40, "c": 30, "d": 20, "e": 10}
+			text := ""
+			for _, n := range []string{"a", "b", "c", "d", "e"} {
+				text += zzRule(n, 1, strconv.Itoa(int(sals[n])))
+			}
+			dc := context.NewDataContext()
+			for k, v := range zzApis() {
+				dc.Add(k, v)
+			}
+			rb := builder.NewRuleBuilder(dc)
+			zzMust(rb.BuildRuleFromString(text), "build")
+			zzMust(rb.RemoveRules([]string{gone}), "removal")
+			zzMust(rb.BuildRuleWithIncremental(zzRule(redef, 2, strconv.Itoa(int(sals[redef])))), "incremental build")
+			delete(sals, gone)
+			vers := zzVersions(rb)
+			vnd.Assert(len(zzRunOrder) == 4, "the merged set runs every rule once")
+			seen := map[string]bool{}
+			for k := 0; k < len(zzRunOrder); k++ {
+				_, in := sals[zzRunOrder[k]]
+				vnd.Assert(in && !seen[zzRunOrder[k]], "exactly the rules of the merged set run, each once")
+				seen[zzRunOrder[k]] = true
+				if k+1 < len(zzRunOrder) {
+					vnd.Assert(sals[zzRunOrder[k]] >= sals[zzRunOrder[k+1]], "the merged set runs in priority order (builder)")
+				}
+			}
+			vnd.Assert(vers[redef] == 2, "the re-defined rule runs in its new version")
+		}
+	}
+	vnd.Reach("executed")
+}
+`)
+	fam.Instances = append(fam.Instances, Instance{Func: "M5_incremental_after_removal", Stratum: "merge-order", Desc: "removal, then an accepted incremental text re-defining a rule ranked before or after the removed one", Expect: []string{"executed"}})
 	fam.Instances = append(fam.Instances, Instance{Func: "M4_incremental_order", Stratum: "merge-order", Desc: "a rule with a symbolic salience merged into five installed rules, builder and pool", Expect: []string{"executed"}})
 	finishPoolFamily(fam, "C10", b.String())
 	return fam, nil
